@@ -3,12 +3,14 @@
    first and copies the children order).  No proofs here.
 
    node table        _nodes : list (option node_data)          (None = deleted)
-   free indices      _free_nodes : list nid.  WHICH free index _add_node takes is not prescribed by the property
-                     (hugr-py pops the most recently freed one; a heap or a queue would do as well), so the
-                     choice is an ORACLE input of the model: [prefer pick h] moves the implementation's choice to
-                     the head of the list when it is admissible (a member of the list), and _add_node takes the
-                     head.  Without a choice (or with an inadmissible one) the head is the most recently freed
-                     index, i.e. the code as written.  A fresh index is allocated only when no index is free.
+   free indices      _free_nodes : list nid.  WHICH index a new node takes is not prescribed by the property
+                     (hugr-py pops the most recently freed one and grows the table by one when none is free; a
+                     heap or a queue, or another order of the copies of an insertion, would do as well), so the
+                     choice is an ORACLE input of the model: [prefer pick h] puts the implementation's choice at
+                     the head of the free list when it is admissible (any index that is not live: a freed one,
+                     or one at or beyond the end of the table, which then grows up to it), and _add_node takes
+                     the head.  Without a choice (or with an inadmissible one) the model is the code as written:
+                     the most recently freed index, or the next fresh one when no index is free.
    links             _links : BiMap[_SubPort[OutPort], _SubPort[InPort]]  (model/BiMapM.v, dicts as
                      insertion-ordered association lists)
    a port            (node index, offset : Z), offset -1 = the order port; the direction is implied
@@ -190,14 +192,26 @@ Section G.
   Definition set_node (h : hugr) (n : nid) (d : node_data) : hugr :=
     with_nodes h (set_nth (nodes h) n (Some d)).
 
-  (* the choice of the free index (oracle): an admissible choice -- a member of the free list -- is moved to the
-     head, where _add_node takes it; anything else leaves the list alone.  [prefer None h] is h. *)
+  (* the choice of the index of a new node (oracle).  The property prescribes neither WHICH freed index is reused
+     nor that freed indices are reused before the table grows, nor in which order the copies of an insertion
+     take their indices: any index that is not live is admissible.  An admissible choice inside the table -- a
+     member of the free list -- is moved to the head of the list, where _add_node takes it.  A choice at or
+     beyond the end of the table makes the table grow up to it: the slots in between are free slots like any
+     other (None in the table and on the free list -- the store needs nothing else to represent a gap; it is
+     what allocating and deleting them would have left), the chosen one at the head.  Anything else (a live
+     index) leaves the store alone.  [prefer None h] is h: without a choice the model is the code as written. *)
   Definition pick_first (f : nid) (fr : list nid) : list nid :=
     if mem Nat.eqb f fr then f :: filter (fun x => negb (Nat.eqb x f)) fr else fr.
   Definition prefer (pick : option nid) (h : hugr) : hugr :=
     match pick with
     | None => h
-    | Some f => {| nodes := nodes h; links := links h; free := pick_first f (free h); root := root h |}
+    | Some f =>
+        if Nat.ltb f (length (nodes h)) then
+          {| nodes := nodes h; links := links h; free := pick_first f (free h); root := root h |}
+        else
+          let k := S f - length (nodes h) in
+          {| nodes := nodes h ++ repeat None k; links := links h;
+             free := rev (seq (length (nodes h)) k) ++ free h; root := root h |}
     end.
 
   (* _add_node (base.py:159-180) followed by _update_port_count(num_outs=...) *)
